@@ -8,6 +8,8 @@ from .common import make_registry, install_trace_funcs, register_classes
 from . import whmodels
 from .whmodels import RES, DEF, QCALL, CALLT
 
+from .mailbox_ready import CLUSTER_READY
+
 PROP = "C18"
 OBS = "wormhole/observer.py:"
 EVQ = "wormhole/eventual.py:"
@@ -386,6 +388,6 @@ def tasks():
     """function-level tasks plus the machine-level obligations of this property (mailbox-cluster engine)"""
     import os
     from pyvc.mrun import ClusterTask
-    if os.environ.get("VERIF_NO_CLUSTER"):
+    if not CLUSTER_READY or os.environ.get("VERIF_NO_CLUSTER"):
         return _f_tasks()
     return _f_tasks() + [ClusterTask("mailbox-cluster", "props.mailbox", "engine", select_m, "mailbox_history:search")]
